@@ -2546,24 +2546,48 @@ impl<'a, R: FileManager> FrontendCtx<'a, R> {
         anchor: &Anchor,
     ) -> Res<Runtype> {
         let mut vs = vec![];
+        let mut seen_names = BTreeSet::new();
+        let mut visited_files = BTreeSet::new();
+        self.push_file_exports_as_values(
+            bff_file_name,
+            anchor,
+            &mut vs,
+            &mut seen_names,
+            &mut visited_files,
+        )?;
+        Ok(Runtype::object(vs))
+    }
+
+    /// the value exports of a module: its own, then what it re-exports with `export *`
+    /// (a name the module exports itself wins, as in `SymbolsExportsModule::get_value`)
+    fn push_file_exports_as_values(
+        &mut self,
+        bff_file_name: &BffFileName,
+        anchor: &Anchor,
+        vs: &mut Vec<(String, Optionality<Runtype>)>,
+        seen_names: &mut BTreeSet<String>,
+        visited_files: &mut BTreeSet<BffFileName>,
+    ) -> Res<()> {
+        if !visited_files.insert(bff_file_name.clone()) {
+            return Ok(());
+        }
         let module = self.get_or_fetch_file(bff_file_name, anchor)?;
         // iterate in name order: the first error returned must not depend on hash order
         let named_values: BTreeMap<_, _> = module.symbol_exports.named_values.iter().collect();
-        for (name, sym) in named_values {
-            let v = self.extract_sym_export_as_value(sym, anchor)?;
-            if let Some(v) = v {
-                vs.push((name.clone(), v.required()));
-            }
-        }
         let named_unknown: BTreeMap<_, _> = module.symbol_exports.named_unknown.iter().collect();
-        for (name, sym) in named_unknown {
+        for (name, sym) in named_values.into_iter().chain(named_unknown) {
+            if !seen_names.insert(name.clone()) {
+                continue;
+            }
             let v = self.extract_sym_export_as_value(sym, anchor)?;
             if let Some(v) = v {
                 vs.push((name.clone(), v.required()));
             }
         }
-
-        Ok(Runtype::object(vs))
+        for star in &module.symbol_exports.extends {
+            self.push_file_exports_as_values(star, anchor, vs, seen_names, visited_files)?;
+        }
+        Ok(())
     }
 
     fn extract_addressed_value(
